@@ -185,7 +185,7 @@ func (e *C14) Rule() string {
 	return "inputs as in C02 (corpus, malformations, loop shapes, random) with extra weight on size-field attacks (PRVW size, iloc/iinf/ipma counts, tag counts, 32/64-bit box sizes, ftyp size, PNG chunk lengths, JPEG segment lengths set to huge values) and, every 12th case, one tiny unit (an 8..32-byte box of each known type inside meta/iinf/ipco/iref/moov/the Canon uuid/the preview uuid/top level, a minimal Exif or XMP APP1 segment, PNG chunk, IFD entry, chain of one-entry IFDs, XMP token) tiled to 180 KB..1.2 MB, where per-unit allocation adds up against 16 bytes per input byte; for inputs above 96 KiB only the library's own entry points are measured (harness-composed callbacks allocate per block on the caller's account); each call runs alone in a single-goroutine worker between two runtime.ReadMemStats; refuted by TotalAlloc delta > 4MiB + 16*len(input) or by the worker dying of out-of-memory (RLIMIT_AS back-stop). Non-trivial: the call allocated anything; distinct = (entry, log2 bucket of bytes allocated per input byte)."
 }
 func (e *C14) Assumptions() []string {
-	return []string{"TotalAlloc counts heap allocation only (stack growth is not measured)", "the harness's own allocations inside a call (observation strings, 777-byte drain buffers) are inside the 4 MiB constant",
+	return []string{"TotalAlloc counts heap allocation only (stack growth is not measured)", "the library entry points are called bare (results discarded unformatted); for the composed entries (scanner + callbacks) the harness's own allocations inside a call (observation strings, 777-byte drain buffers) are inside the 4 MiB constant, and those entries are not run on inputs above 96 KiB",
 		"one call at a time per worker process, so the delta is attributable to the call"}
 }
 func (e *C14) Plan(tier string, seed uint64) int {
@@ -257,7 +257,11 @@ func (e *C14) Run(c *core.Ctx, idx int) {
 		c.SetPhase("entry=" + ent.Name + " " + desc)
 		dumpInput(c, ent.Name, data)
 		runtime.ReadMemStats(&m0)
-		panicked, _, _ := core.Guard(func() { _ = ent.Run(rs) })
+		call := func() { _ = ent.Run(rs) }
+		if raw := entryRaw[ent.Name]; raw != nil {
+			call = func() { raw(rs) }
+		}
+		panicked, _, _ := core.Guard(call)
 		runtime.ReadMemStats(&m1)
 		c.Rec.Eval(1)
 		if panicked {
